@@ -2,6 +2,8 @@ package props
 
 import (
 	"fmt"
+	"unicode"
+	"unicode/utf8"
 
 	"pgregory.net/rapid"
 
@@ -53,9 +55,11 @@ type wfBuilder struct {
 	nP    int
 }
 
-func (b *wfBuilder) intn(lo, hi int, label string) int { return rapid.IntRange(lo, hi).Draw(b.t, label) }
-func (b *wfBuilder) coin(label string) bool             { return rapid.Bool().Draw(b.t, label) }
-func (b *wfBuilder) pct(p int, label string) bool       { return rapid.IntRange(0, 99).Draw(b.t, label) < p }
+func (b *wfBuilder) intn(lo, hi int, label string) int {
+	return rapid.IntRange(lo, hi).Draw(b.t, label)
+}
+func (b *wfBuilder) coin(label string) bool       { return rapid.Bool().Draw(b.t, label) }
+func (b *wfBuilder) pct(p int, label string) bool { return rapid.IntRange(0, 99).Draw(b.t, label) < p }
 func (b *wfBuilder) pick(xs []string, label string) string {
 	return rapid.SampledFrom(xs).Draw(b.t, label)
 }
@@ -64,6 +68,8 @@ func (b *wfBuilder) addDecl(d Decl) int {
 	b.s.Decls = append(b.s.Decls, d)
 	return len(b.s.Decls) - 1
 }
+
+var goKeyword = map[string]bool{"break": true, "case": true, "chan": true, "const": true, "continue": true, "default": true, "defer": true, "else": true, "fallthrough": true, "for": true, "func": true, "go": true, "goto": true, "if": true, "import": true, "interface": true, "map": true, "package": true, "range": true, "return": true, "select": true, "struct": true, "switch": true, "type": true, "var": true}
 
 // GenWF draws a well-formed program.
 func GenWF(o WFOpts) *rapid.Generator[*Spec] {
@@ -78,8 +84,58 @@ func GenWF(o WFOpts) *rapid.Generator[*Spec] {
 		b.build()
 		b.s.JointSets = b.pct(20, "jointsets")
 		b.s.SetsInInject = b.pct(30, "setsininject")
+		switch b.intn(0, 11, "wireimport") {
+		case 0, 1:
+			b.s.WireImport = "raw"
+		case 2:
+			b.s.WireImport = "alias"
+		}
 		if o.Names > 0 && b.pct(o.Names, "names") {
 			ApplyNames(t, b.s)
+		}
+		// named results in some injector templates, with the names Wire itself
+		// likes to use for its locals
+		for k := range b.s.Injectors {
+			in := &b.s.Injectors[k]
+			if !b.pct(20, "namedresults") {
+				continue
+			}
+			taken := map[string]bool{}
+			for _, p := range in.Params {
+				taken[p.Name] = true
+			}
+			pickFree := func(pool []string, label string) string {
+				var free []string
+				for _, n := range pool {
+					if n == "_" || !taken[n] {
+						free = append(free, n)
+					}
+				}
+				n := b.pick(free, label)
+				taken[n] = true
+				return n
+			}
+			valPool := []string{"_", "res", "out", "v", "cleanup", "err"}
+			if ot := in.Out; ot != nil {
+				for ot.K == "ptr" || ot.K == "slice" {
+					ot = ot.Elem
+				}
+				if ot.K == "named" {
+					nm := b.s.Decls[ot.Decl].Name
+					r0, size := utf8.DecodeRuneInString(nm)
+					lower := string(unicode.ToLower(r0)) + nm[size:]
+					if lower != nm && !goKeyword[lower] {
+						valPool = append(valPool, lower, lower, lower+"2")
+					}
+				}
+			}
+			in.ResNames = []string{pickFree(valPool, "resname")}
+			if in.Cleanup {
+				in.ResNames = append(in.ResNames, pickFree([]string{"_", "cleanup", "cleanup", "cleanup2", "done", "err"}, "clname"))
+			}
+			if in.Err {
+				in.ResNames = append(in.ResNames, pickFree([]string{"_", "err", "err", "err2", "e", "cleanup"}, "errname"))
+			}
 		}
 		return b.s
 	})
@@ -563,6 +619,9 @@ func (b *wfBuilder) makeItem(i int) {
 			for fi := range d.Fields {
 				if d.Fields[fi].Name == "Tok" {
 					d.Fields[fi].Tag = b.pick([]string{`wire:"-"`, `json:"tok" wire:"-"`, `wire:"-" json:"tok"`}, "prevtag")
+				} else if b.pct(35, "stardecoy") {
+					// a tag that looks like the prevent tag but is not: the field is still injected
+					d.Fields[fi].Tag = b.pick([]string{`json:"-"`, `wire:""`, `wire:"x"`, `xwire:"-"`, `xwire:"-" json:"-"`, `json:"wire:\"-\""`, `hardwire:"-"`, `wire:"-,"`}, "decoy")
 				}
 			}
 		case "legacy":
